@@ -92,11 +92,14 @@ func (s *Scanner) Scan(ctx context.Context, r *scan.Request) (result scan.Result
 	host := fmt.Sprintf("tcp://%s:%d", r.DstIP.String(), r.DstPort)
 
 	var docker *moby.Client
+	// WithHost rewrites the transport of the client that is set at that moment
+	// (proxy from the environment, dialer), so it goes before WithHTTPClient:
+	// the shared transport stays untouched and probes are sent to the target itself
 	if docker, err = moby.NewClientWithOpts(
 		moby.WithAPIVersionNegotiation(),
+		moby.WithHost(host),
 		moby.WithHTTPClient(s.client),
 		moby.WithScheme(s.proto),
-		moby.WithHost(host),
 	); err != nil {
 		return
 	}
